@@ -101,6 +101,115 @@ def _run_random(job):
     return idx, out
 
 
+def _proc_job(job):
+    idx, ops, fails, present, kind, seed = job
+    from .. import cache_procs
+
+    d = scratch(f'c15p-{os.getpid()}') / f'p{idx}'
+    try:
+        return idx, run_forked(cache_procs.run_once, str(d), ops, set(fails), present, kind, seed, timeout=60)
+    except ChildCrashed as e:
+        return idx, dict(ev=[], hung=sorted(ops), final=None, crashed=str(e))
+    finally:
+        shutil.rmtree(d, ignore_errors=True)
+
+
+def process_traces(ctx):
+    """free-running processes (real lock files, no scheduler): every recorded execution must be a behaviour of Cache.tla"""
+    import itertools
+
+    quick = ctx.quick()
+    jobs = []
+    rounds = 3 if quick else 40
+    for n in (2, 3):
+        for m in itertools.product(('get', 'goc', 'force'), repeat=n):
+            if all(o == 'get' for o in m) and n == 3:
+                continue
+            for r in range(rounds):
+                ops = dict(zip(range(1, n + 1), m))
+                fails = tuple(c for c in ops if ops[c] != 'get' and (r + c + len(jobs)) % 4 == 0) if r % 2 else ()
+                jobs.append((len(jobs), ops, fails, bool((r + len(jobs)) % 2), ('json', 'json', 'numpy', 'df')[(r + len(jobs) // 3) % 4],
+                             ctx.seed * 7919 + len(jobs)))
+    out = dict(pmap(_proc_job, jobs, workers=8))
+    ctx.traces += len(jobs)
+    ctx.extra['process_executions'] = len(jobs)
+    by_n = {2: [], 3: []}
+    for j in jobs:
+        idx, ops, fails, present, kind, seed = j
+        o = out[idx]
+        label = f'processes {ops} (failing computations: {list(fails)}, entry present: {present}, {kind} cache)'
+        if o['hung'] or o.get('crashed'):
+            ctx.report('proc:hung', f'{label}: processes {o["hung"]} did not finish {o.get("crashed", "")}', detail={'events': o['ev']})
+            continue
+        for e in o['ev']:
+            if e[1] == 'ret' and e[2] < 0:
+                ctx.report('proc:call-failed' if e[2] == -2 else 'proc:torn-or-foreign-value',
+                           f'{label}: process {e[0]} ' + (f'failed with {e[3]}' if e[2] == -2 else f'returned {e[3]!r}, not the value of a computation'),
+                           detail={'events': o['ev']})
+        n = len(ops)
+        by_n[n].append({'present': present, 'ops': [ops[c] for c in sorted(ops)], 'fails': [c in fails for c in sorted(ops)],
+                        'ev': o['ev'], 'label': label, 'final': o['final'], 'completed': [e[0] for e in o['ev'] if e[1] == 'cls']})
+        done = ([0] if present else []) + [e[0] for e in o['ev'] if e[1] == 'cls']
+        if done and o['final'] not in done:
+            ctx.report('proc:final-file', f'{label}: at quiescence the stored entry is {o["final"]!r}, completed computations: {done}',
+                       detail={'events': o['ev']})
+    distinct = set()
+    for n, traces in by_n.items():
+        if not traces:
+            continue
+        data = scratch('c15-proc-traces') / f'traces{n}.json'
+        data.write_text(json.dumps([{k: t[k] for k in ('present', 'ops', 'fails', 'ev')} for t in traces]))
+        mod = (f'---- MODULE MCCacheTrace ----\nEXTENDS CacheTrace\nc_Callers == 1..{n}\n'
+               'c_Ops == {"get", "goc", "force"}\nc_B == {TRUE, FALSE}\n====\n')
+        cfg = ('CONSTANTS\n  Callers <- c_Callers\n  OpChoices <- c_Ops\n  InitPresent <- c_B\n  FailChoices <- c_B\n  Emit = FALSE\n'
+               'INIT TInit\nNEXT TNext\nCONSTRAINT Reach\nPOSTCONDITION Verdicts\n' + ''.join(f'INVARIANT {i}\n' for i in INVS))
+        res = run_tlc('MCCacheTrace', cfg_text=cfg, extra_files={'MCCacheTrace.tla': mod}, workers=1, timeout=1800,
+                      env={'TCVERIF_TRACE_JSON': str(data)}, deadlock=False)
+        account(ctx, res, f'CacheTrace: {len(traces)} executions of {n} free-running processes validated against Cache.tla '
+                          f'({sum(len(t["ev"]) for t in traces)} events; all invariants at every step)')
+        verdicts = {v['trace']: v for v in res.by_tag('CV')}
+        if len(verdicts) != len(traces):
+            raise MachineryError(f'CacheTrace returned {len(verdicts)} verdicts for {len(traces)} traces')
+        for i, t in enumerate(traces, 1):
+            distinct.add(json.dumps([e[:2] for e in t['ev'] if e[1] in ('acq', 'comp')] + t['ops']))
+            v = verdicts[i]
+            if v['matched'] < v['len']:
+                k = v['matched']
+                ctx.report(f"proc:trace:{t['ev'][k][1]}", f"{t['label']}: event #{k} {t['ev'][k]} is not a step of Cache.tla in the state "
+                                                          f"reached by the events before it (preceding: {t['ev'][max(0, k - 6):k]})",
+                           detail={'events': t['ev']})
+    ctx.extra['distinct_process_interleavings'] = len(distinct)
+    # binding self-test: corrupted traces must be rejected
+    good = next((t for t in by_n[2] if any(e[1] == 'chk' and e[2] for e in t['ev']) and not any(e[1] == 'ret' and e[2] < 0 for e in t['ev'])), None)
+    if good is not None:
+        import copy
+        muts = []
+        m = copy.deepcopy(good)
+        i = next(i for i, e in enumerate(m['ev']) if e[1] == 'chk' and e[2])
+        m['ev'][i][2] = False
+        muts.append(m)                                   # exists() answer flipped
+        m = copy.deepcopy(good)
+        i = next(i for i, e in enumerate(m['ev']) if e[1] == 'rel')
+        del m['ev'][i]
+        muts.append(m)                                   # a release dropped: the next acquisition finds the lock held
+        m = copy.deepcopy(good)
+        i = next(i for i, e in enumerate(m['ev']) if e[1] == 'ret')
+        m['ev'][i][2] = 103
+        muts.append(m)                                   # a value nobody computed
+        data = scratch('c15-proc-traces') / 'mut.json'
+        data.write_text(json.dumps([{k: t[k] for k in ('present', 'ops', 'fails', 'ev')} for t in muts]))
+        mod = ('---- MODULE MCCacheTrace ----\nEXTENDS CacheTrace\nc_Callers == 1..2\n'
+               'c_Ops == {"get", "goc", "force"}\nc_B == {TRUE, FALSE}\n====\n')
+        cfg = ('CONSTANTS\n  Callers <- c_Callers\n  OpChoices <- c_Ops\n  InitPresent <- c_B\n  FailChoices <- c_B\n  Emit = FALSE\n'
+               'INIT TInit\nNEXT TNext\nCONSTRAINT Reach\nPOSTCONDITION Verdicts\n')
+        res = run_tlc('MCCacheTrace', cfg_text=cfg, extra_files={'MCCacheTrace.tla': mod}, workers=1, timeout=600,
+                      env={'TCVERIF_TRACE_JSON': str(data)}, deadlock=False)
+        acc = [v['trace'] for v in res.by_tag('CV') if v['matched'] >= v['len']]
+        ctx.extra['process_trace_binding_selftest'] = {'corrupted_traces': len(muts), 'rejected': len(muts) - len(acc)}
+        if acc:
+            raise MachineryError(f'CacheTrace accepted corrupted traces {acc}')
+
+
 def judge(beh, out):
     """P-level verdict on one controlled execution. Returns [(sigclass, text)]."""
     from ..cache_sched import value_of
@@ -215,6 +324,7 @@ def run(ctx):
         ctx.case(json.dumps([o['log'], m, present]), nontrivial=len(m) > 1)
         for cls, text in judge(b, o):
             ctx.report(f'{cls}', text, detail={'schedule': o['log'], 'ops': m, 'present': present, 'observed': o})
+    process_traces(ctx)
     ctx.extra['distinct_real_schedules'] = len(distinct_logs)
     ctx.extra['behaviours_followed_exactly'] = len(behs) - drifted
     ctx.extra['behaviours_with_drift'] = drifted
